@@ -62,7 +62,7 @@ def probes():
             "missing_file_created", "second_sync_noop_checked", "truth_class", "truth_function", "truth_argparse",
             "fault_fired", "crash_fired", "recovery_delete", "recovery_empty", "recovery_restore", "convergence_checked",
             "user_edit", "restart", "method_target", "black_absent", "decoy_same_name_nested", "class_target_with_unannotated_attribute", "third_sync_noop_checked",
-            "one_file_listed_for_two_roles"]
+            "one_file_listed_for_two_roles", "truth_read_checked_against_spec"]
 
 
 # ------------------------------------------------------------------------------------ generators
@@ -439,7 +439,7 @@ def simulate(plan):
                 post_texts = {FILES[k]: world.read(FILES[k]) for k in KINDS}
                 if post_texts != pre_texts:
                     changed_any = True
-                viols += check_sync(p, truth, pre_texts, post_texts, probe, bump, black)
+                viols += check_sync(p, truth, pre_texts, post_texts, probe, bump, black, specs=_user_specs(plan, truth))
                 # B5: an identical second sync is a no-op
                 if all(t is not None and _parses(t) for t in post_texts.values()):
                     o2 = ops.invoke(world, op, black=black)
@@ -660,6 +660,11 @@ def _safe_parse(text, kind, name):
         return None
 
 
+def _user_specs(plan, kind):
+    """Every interface the simulated user ever writes for this target in this plan."""
+    return [plan["project"]["specs"][kind]] + [s["spec"] for s in plan["steps"] if s.get("op") == "edit" and s.get("target") == kind]
+
+
 def _states_now(texts, p):
     out = {}
     for k in KINDS:
@@ -688,13 +693,14 @@ def check_b6(before, after, events, listed):
     return v
 
 
-def check_sync(p, truth, pre, post, probe, bump, black):
+def check_sync(p, truth, pre, post, probe, bump, black, specs=()):
     """B1-B4 after a fault-free sync that returned."""
     v = []
     states = _states_now(pre, p)
     tname = target_name(p, truth)
     truth_ir = cdd_parse(pre[FILES[truth]], truth, tname)
     truth_if = iface_of(truth_ir)
+    v += check_truth_read(p, truth, pre[FILES[truth]], truth_if, specs, probe, bump)
     for k in KINDS:
         f = FILES[k]
         text = post[f]
@@ -754,6 +760,58 @@ def check_sync(p, truth, pre, post, probe, bump, black):
             if a != b:
                 v.append({"clause": "B4", "detail": "code outside target %s changed in %s: %s" % (name, f, _fd(a, b)),
                           "sig": {"what": "outside_changed", "kind": k, "state": states[k]}})
+    return v
+
+
+def spec_iface(spec):
+    """The interface the harness wrote (own renderer), in iface_of's shape."""
+    out = []
+    for q in spec["params"]:
+        d = "<absent>"
+        if q.get("default") is not None:
+            d = repr(ast.literal_eval(q["default"]))
+        out.append((q["name"], q["typ"], d, norm_doc(q["doc"])))
+    return out
+
+
+def check_truth_read(p, truth, text, truth_if, specs, probe, bump):
+    """B2 speaks about the truth's interface, and B2/B3 read it with cdd's own parser on both sides of the comparison.
+    Where the truth's target is still verbatim what the simulated user wrote (initial file or a later edit; the spec it
+    was rendered from is known), what cdd reads out of it is additionally compared with that spec: names and order,
+    types, explicit defaults, descriptions.  A parser that reads the truth wrongly makes every target 'equal' to a wrong
+    interface, which the two-sided comparison cannot see."""
+    v = []
+    spec = None
+    for sp in specs:
+        if render_target(p, truth, sp) in (text or ""):
+            spec = sp
+    if spec is None:
+        return v
+    bump(probe, "truth_read_checked_against_spec")
+    want = spec_iface(spec)
+    if truth == "class" and p.get("legacy_attr"):
+        # render_target also wrote the un-annotated `legacy = 1`, which is part of what cdd reads
+        truth_if = [t for t in truth_if if t[0] != "legacy"]
+    if [w[0] for w in want] != [t[0] for t in truth_if]:
+        return [{"clause": "B2", "detail": "truth %s written with parameters %s is read as %s" % (
+            truth, [w[0] for w in want], [t[0] for t in truth_if]), "sig": {"what": "truth_misread", "truth": truth, "field": "names"}}]
+    for w, t in zip(want, truth_if):
+        fields = []
+        # argparse source has no spelling for Optional (the renderer writes `type=T` without `required=True`)
+        wt = w[1][len("Optional["):-1] if truth == "argparse_function" and w[1].startswith("Optional[") and \
+            not (t[1] or "").startswith("Optional[") else w[1]
+        if wt != t[1]:
+            fields.append(("type", w[1], t[1]))
+        if w[2] != t[2] and not (w[2] == "None" and t[2] in NONE_MARKS) and \
+                not (w[2] in ("<absent>", "None") and truth == "argparse_function"):
+            fields.append(("default", w[2], t[2]))
+        if w[3] != t[3]:
+            fields.append(("description", w[3], t[3]))
+        for fld, a, b in fields:
+            v.append({"clause": "B2", "detail": "truth %s: %s of %s was written as %r and is read as %r" % (
+                truth, fld, w[0], a, b), "sig": {"what": "truth_misread", "truth": truth, "field": fld,
+                                                  "written": a if fld != "description" else None,
+                                                  "read": b if fld != "description" else None}})
     return v
 
 
